@@ -179,6 +179,9 @@ def gen_ec(ctx, exe, cid, cv, scale, other_pts):
             keys[s].append((d, cv.mul(cv.g, d)))
     # ---- signing
     lens = MSGLENS if ctx.tier != "quick" else [0, 1, 31, 32, 33, 55, 56, 63, 64, 65] + [rng.choice([119, 120, 121, 127, 128, 129]), 300]
+    if ctx.tier == "quick" and (CURVES.index(cid) + ctx.seed) % len(CURVES) != 0:
+        # the hash-block boundary lengths are curve independent: all of them on one curve per run, a subset on the others
+        lens = [0, 1, 32, 33, 64, 300, rng.choice([31, 55, 56, 63, 65, 119, 120, 121, 127, 128, 129])]
     sl = []
     meta = []
     for ki, (d, Q) in enumerate(keys["ecdsa"]):
@@ -1396,7 +1399,9 @@ def matches_finding(f, r):
         if pred == "rsa_pss_top_bit":
             return pad == "pkcs2" and _accepted(r) and n > 1 and (pow(s, e, n) >> (n.bit_length() - 1)) & 1 == 1
         if pred == "rsa_basic_position":
-            if pad != "basic" or s >= n or len(sig) != kl or not (_accepted(r) or r["got"].startswith("CRASH")):
+            if pad != "basic" or n < 2 or not (_accepted(r) or r["got"].startswith("CRASH")):
+                return False
+            if not r["got"].startswith("CRASH") and (s >= n or len(sig) != kl):
                 return False
             em = pow(s, e, n).to_bytes(kl, "big").lstrip(b"\x00")
             return em[:1] == b"\xff" and len(em) != 33
